@@ -44,7 +44,7 @@ func c07Plan(tier string, seed uint64) (jobs []rt.Job) {
 		nh = 16
 	}
 	for b := 0; b < nh; b++ {
-		jobs = append(jobs, rt.Job{ID: fmt.Sprintf("C07/histories/%d", b), Kind: "histories", Cost: 4, Args: map[string]interface{}{"batch": b, "keys": 3, "msgs": 8}})
+		jobs = append(jobs, rt.Job{ID: fmt.Sprintf("C07/histories/%d", b), Kind: "histories", Cost: 4, Args: map[string]interface{}{"batch": b, "keys": 10, "msgs": 3}})
 	}
 	// committed boundary witnesses, split over a few jobs
 	if lines := readCorpus(); len(lines) > 0 {
@@ -313,6 +313,21 @@ func c07Histories(j *rt.Job, rng *rt.Rand, r *rt.Rec) {
 			}
 		}
 		r.Observe("orders", []string{"forward", "reverse", "shuffled"}[order])
+	}
+	// keys re-derived from their seeds after all that history must be the same keys
+	for k := 0; k < nk; k++ {
+		again := dilLibKey(seeds[k])
+		r.Eval(1)
+		if again.GetPK() != libs[k].GetPK() || again.GetSK() != libs[k].GetSK() {
+			r.Violate("C07/order-dependent", "a key re-derived from its seed after other keys were used differs from the first derivation", jobCase(j), "", "")
+			return
+		}
+		sig, _ := again.Sign(msgs[0])
+		if !bytes.Equal(sig[:], first[[2]int{k, 0}]) {
+			r.Violate("C07/order-dependent", "a key re-derived from its seed after other keys were used signs differently", jobCase(j), "", "")
+			return
+		}
+		r.Count("rederived_keys_equal", 1)
 	}
 	// one reference comparison per key so the history results are anchored
 	for k := 0; k < nk; k++ {
